@@ -24,12 +24,12 @@ func refTraverse(s stackage.Stack, path []int) (v any, ok bool, failStep int) {
 		if k == len(path)-1 {
 			return e, true, -1
 		}
-		if st, isS := stackage.ConvertStack(e); isS {
+		if st, isS := refAsStack(e); isS {
 			cur = st
 			continue
 		}
-		if cd, isC := stackage.ConvertCondition(e); isC {
-			if st, isS := stackage.ConvertStack(cd.Expression()); isS {
+		if cd, isC := refAsCond(e); isC {
+			if st, isS := refAsStack(cd.Expression()); isS {
 				cur = st
 				continue
 			}
@@ -47,6 +47,9 @@ func sameValue(a, b any) bool {
 	}
 	da, db := stackage.VerifDump(a), stackage.VerifDump(b)
 	if da.Class != "other" || db.Class != "other" {
+		if da.Addr == 0 && db.Addr == 0 { // hollow values (zero alias, nil pointer): same type is all there is
+			return da.Class == db.Class && fmt.Sprintf("%T", a) == fmt.Sprintf("%T", b)
+		}
 		return da.Class == db.Class && da.Addr == db.Addr && da.Addr != 0
 	}
 	return fmt.Sprintf("%T", a) == fmt.Sprintf("%T", b) && fmt.Sprint(a) == fmt.Sprint(b)
@@ -127,17 +130,18 @@ func c07Trees(c *Ctx) []node {
 	if !c.Quick() {
 		atoms = append(atoms, node{T: "tnil2"})
 	}
-	wraps := []string{"S", "A", "CS", "PA", "CA"}
+	wraps := []string{"S", "A", "CS", "CSE", "PA", "CA"}
 	kinds := []string{"AND", "OR", "LIST", "NOT", "BASIC"}
 	var nested []node
 	if c.Quick() {
-		nested = genStacks(1, 1, 2, atoms, wraps[:3], kinds)
+		nested = genStacks(1, 1, 2, atoms, wraps[:4], kinds)
 	} else {
 		nested = genStacks(1, 1, 2, atoms, wraps, kinds)
 		nested = append(nested, genStacks(1, 1, 3, atoms[:2], []string{"PA", "CA", "AS"}, kinds)...)
 		nested = append(nested, genStacks(1, 1, 2, []node{{T: "leaf"}, {T: "CCL"}}, []string{"CCS", "S"}, kinds)...) // Condition aliases
 	}
 	elems := append(append([]node{}, atoms...), nested...)
+	elems = append(elems, node{T: "zalias"}, node{T: "nilPA"}) // hollow values of the alias types, as siblings
 	var roots []node
 	width := 2
 	var rec func(cur []node)
@@ -189,8 +193,24 @@ func c07Paths(maxLen, lo, hi int) [][]int {
 	return out
 }
 
+// c07Prelude puts the package into a non-initial state first: hollow values of every alias type (zero
+// alias, nil pointers) are traversed through, so that anything the library remembers per type has been
+// written before the trees are examined (runs and replays alike, so that replays are self-contained).
+func c07Prelude() {
+	noPanic(func() {
+		h := stackage.And().Push(StackAlias{}, (*StackAlias)(nil), StackAliasS{}, (*StackAliasS)(nil), (*stackage.Stack)(nil), stackage.Stack{},
+			CondAlias{}, (*CondAlias)(nil), stackage.Condition{}, (*stackage.Condition)(nil))
+		for i := 0; i < h.Len(); i++ {
+			h.Traverse(i)
+			h.Traverse(i, 0)
+			h.Traverse(i, 0, 0)
+		}
+	})
+}
+
 func init() {
 	register(&Check{ID: "C07", Engine: "B", Run: func(c *Ctx) {
+		c07Prelude()
 		trees := c07Trees(c)
 		maxLen := 3
 		if !c.Quick() {
@@ -198,7 +218,7 @@ func init() {
 		}
 		paths := c07Paths(maxLen, -1, 3)
 		optNames := []string{"default", "neg+fwd", "root-only", "children-only", "flags-after", "locked-down", "errored"}
-		c.Rule = "every tree of the bounded family (elements: leaf, nil, empty Stack, Condition(leaf), and nested Stack / alias / pointer-to-alias / Condition(Stack) / Condition(alias)) x 7 option placements (4 for the index options, 3 that switch unrelated flags, mutex, FIFO, read-only, presentation settings or an earlier error on after filling) x every index path of length 0..max with indices in [-1,3]; oracle = stepwise descent written from the statement using the real Index/Convert*/Expression; non-trivial = distinct (tree, options, path) where the stepwise walk fails before the last index or succeeds at depth >= 2"
+		c.Rule = "every tree of the bounded family (elements: leaf, nil, empty Stack, Condition(leaf), and nested Stack / alias / pointer-to-alias / Condition(Stack) / Condition(alias) / Condition(Stack) completed after construction; zero alias and nil pointer-to-alias siblings) x 7 option placements (4 for the index options, 3 that switch unrelated flags, mutex, FIFO, read-only, presentation settings or an earlier error on after filling) x every index path of length 0..max with indices in [-1,3]; oracle = stepwise descent written from the statement using the real Index/Convert*/Expression; non-trivial = distinct (tree, options, path) where the stepwise walk fails before the last index or succeeds at depth >= 2"
 		c.Bound["trees"] = len(trees)
 		c.Bound["paths_per_tree"] = len(paths)
 		c.Bound["max_path_len"] = maxLen
@@ -229,6 +249,7 @@ func init() {
 	}, Replay: func(c *Ctx, raw json.RawMessage) {
 		var cs c07Case
 		json.Unmarshal(raw, &cs)
+		c07Prelude()
 		s := cs.Tree.buildStack("r", c07Opts(cs.Opts))
 		c07Check(c, s, cs, 0, false)
 	}})
